@@ -28,6 +28,8 @@ FOCUSES = [
     ("MC_Trim", "trim-markers", {"Variant": '"markers"'}, 3, 4),
     ("MC_Trim", "trim-capture", {"Variant": '"capture"'}, 4, 5),
     ("MC_Trim", "trim-blank", {"Variant": '"blank"'}, 4, 5),
+    ("MC_Cycles", "cycles", {}, 3, 4),
+    ("MC_Short", "short", {}, 2, 3),
 ]
 
 _TAG = re.compile(r"\{%[-+~]?\s*(\w+)")
